@@ -282,6 +282,33 @@ def pre041Line (line : String) : String :=
         out ("key=".toList ++ pStr k ++ " doc=".toList ++ pTree nd ++ " inst=".toList ++ inst)
   | _ => "bad-op"
 
+/-- `oldstore <e> <e> …`, `e` = `o:<hex key suffix>:<hex doc>` (a record under the pre-0.4.1 prefix)
+or `c:<hex id>:<hex doc>` (a record under the current connector prefix): the whole store through
+`NewStore`'s migration, every record afterwards (sorted by key), then `GetAll` (sorted by ID). -/
+def oldstoreLine (line : String) : String :=
+  match fields line with
+  | _ :: es =>
+    let recs := es.mapM fun e => match splitOnC ':' e with
+      | [k, a, d] => do
+        let a ← (unhexL a).bind ofUtf8
+        let d ← (unhexL d).bind ofUtf8
+        if k = ['o'] then some (storeKey connPre041KeyPrefix a, d)
+        else if k = ['c'] then some (storeKey connKeyPrefix a, d)
+        else none
+      | _ => none
+    match recs with
+    | none => "bad-op"
+    | some db =>
+      let join := fun (l : List (List Char)) => l.foldr (fun x acc => if acc = [] then x else x ++ " | ".toList ++ acc) []
+      let after := sortRaw (migrateStore db)
+      let docs := after.map fun r =>
+        "key=".toList ++ pStr r.1 ++ " doc=".toList ++ (match parse r.2 with | some j => pTree j | none => "unparsable".toList)
+      let inst := match getAllConn after with
+        | none => "err".toList
+        | some l => join ((sortRaw l).map fun p => "id=".toList ++ pStr p.1 ++ ' ' :: pConn p.2)
+      out (join docs ++ " inst=".toList ++ inst)
+  | [] => "bad-op"
+
 def splitOnTok (sep : List Char) (l : List (List Char)) : List (List (List Char)) :=
   let r := l.foldr (fun x (acc : List (List Char) × List (List (List Char))) =>
     if x = sep then ([], acc.1 :: acc.2) else (x :: acc.1, acc.2)) ([], [])
